@@ -128,7 +128,8 @@ void multisequence_partition(const RanSeqs& begin_seqs, const RanSeqs& end_seqs,
     // padding)
     const diff_type m = std::distance(begin_seqs, end_seqs);
     diff_type nmax, n;
-    RankType N = 0;
+    // the total in diff_type, not RankType: it may exceed a narrow rank type
+    diff_type N = 0;
 
     for (diff_type i = 0; i < m; ++i)
     {
